@@ -155,7 +155,7 @@ def run(repo, rep):
                          '%s reads %s inside the printing pipeline' % (f.key, src(c)))
     # sort keys: comparable keys by their own order, the others by kind - never by identity (interpreted on pairs of constants)
     from .common import report_sortkey
-    n += report_sortkey(repo, rep, 'C19.c')
+    n += report_sortkey(repo, rep, 'C19.c', lambda label: label.startswith(('no-identity', 'total-fallback', 'defines-order')))
     rep.floor('C19.c', n, 4)
 
     # ---------------------------------------------------------------- C19.e the requests extra does not read a body nobody has read
